@@ -38,3 +38,71 @@ Fixpoint bytes_startswith (s p : bytes) : bool :=
 
 (** truthiness of a value that is True, False or None *)
 Definition flag_truthy (f : option bool) : bool := match f with Some true => true | _ => false end.
+
+(** * Hexadecimal strings, continued: [format(n, "x")] / [f"{n:x}"] and [s.zfill(w)].
+
+    Prelude/Py.v renders a string over [0-9a-f] as the list of its digit values and every other
+    character as 16 (the "x" of [hex(-5)[2:] == "x5"]).  [str.zfill] is sign-aware, so the two sign
+    characters have to be told apart from the other non-digits.  Refinement of the convention, used
+    from here on: "-" is 17, "+" is 18, every other non-digit character stays 16.  (No translated
+    expression produces "+"; "-" is produced by [py_format_x] only.)  All of 16, 17, 18 are
+    outside 0..15, so [py_fromhex] refuses them alike -- as CPython does:
+    [bytes.fromhex("-5")], [bytes.fromhex("x5")]: ValueError, non-hexadecimal number found. *)
+Definition hex_minus : Z := 17.
+Definition hex_plus : Z := 18.
+
+(** [format(n, "x")], [f"{n:x}"] for an int n: the lower-case hexadecimal digits of abs(n), no prefix,
+    preceded by "-" when n < 0.  CPython: format(0,"x") == "0", format(255,"x") == "ff",
+    format(-5,"x") == "-5", format(-255,"x") == "-ff" (whereas hex(-5)[2:] == "x5": [py_hex_tail]).
+    Never raises: sys.int_max_str_digits does not apply to power-of-two bases. *)
+Definition py_format_x (n : Z) : hexstr :=
+  match n with
+  | Z0 => [0]
+  | Zpos p => hex_digits_pos p []
+  | Zneg p => hex_minus :: hex_digits_pos p []
+  end.
+
+(** [s.zfill(w)].  CPython (Objects/unicodeobject.c, unicode_zfill_impl): if len(s) >= w the string
+    is returned unchanged; otherwise it is left-filled with w - len(s) characters "0", and if the
+    first character of s is "+" or "-" that sign is moved in front of the fill:
+    "5".zfill(3) == "005", "-5".zfill(4) == "-005", "+5".zfill(4) == "+005", "x5".zfill(4) == "00x5",
+    "".zfill(2) == "00", "-".zfill(3) == "-00", "abc".zfill(3) == "abc".zfill(-1) == "abc".
+    (As for ["0" * n], the limits on the size of an object -- OverflowError / MemoryError for
+    w >= 2**63 or more characters than there is memory -- are not rendered.) *)
+Definition str_zfill (s : hexstr) (w : Z) : hexstr :=
+  if w <=? len s then s
+  else let fill := str_repeat [0] (w - len s) in
+       match s with
+       | c :: r => if (c =? hex_minus) || (c =? hex_plus) then c :: fill ++ r else fill ++ s
+       | [] => fill
+       end.
+
+Example py_format_x_0 : py_format_x 0 = [0]. Proof. vm_compute. reflexivity. Qed.
+Example py_format_x_15 : py_format_x 15 = [15]. Proof. vm_compute. reflexivity. Qed.
+Example py_format_x_16 : py_format_x 16 = [1; 0]. Proof. vm_compute. reflexivity. Qed.
+Example py_format_x_255 : py_format_x 255 = [15; 15]. Proof. vm_compute. reflexivity. Qed.
+Example py_format_x_256 : py_format_x 256 = [1; 0; 0]. Proof. vm_compute. reflexivity. Qed.
+Example py_format_x_big : py_format_x 3735928559 = [13; 14; 10; 13; 11; 14; 14; 15]. Proof. vm_compute. reflexivity. Qed.
+Example py_format_x_m1 : py_format_x (-1) = [17; 1]. Proof. vm_compute. reflexivity. Qed.
+Example py_format_x_m5 : py_format_x (-5) = [17; 5]. Proof. vm_compute. reflexivity. Qed.
+Example py_format_x_m255 : py_format_x (-255) = [17; 15; 15]. Proof. vm_compute. reflexivity. Qed.
+Example py_format_x_m256 : py_format_x (-256) = [17; 1; 0; 0]. Proof. vm_compute. reflexivity. Qed.
+(* the two spellings differ on the negative integers, and only there *)
+Example py_hex_tail_m5 : py_hex_tail (-5) = [16; 5]. Proof. vm_compute. reflexivity. Qed.
+Example py_format_x_hex_tail_255 : py_format_x 255 = py_hex_tail 255. Proof. vm_compute. reflexivity. Qed.
+
+Example str_zfill_smaller : str_zfill [10; 11; 12] 2 = [10; 11; 12]. Proof. vm_compute. reflexivity. Qed.
+Example str_zfill_equal : str_zfill [10; 11; 12] 3 = [10; 11; 12]. Proof. vm_compute. reflexivity. Qed.
+Example str_zfill_larger1 : str_zfill [10; 11; 12] 4 = [0; 10; 11; 12]. Proof. vm_compute. reflexivity. Qed.
+Example str_zfill_larger : str_zfill [10; 11; 12] 6 = [0; 0; 0; 10; 11; 12]. Proof. vm_compute. reflexivity. Qed.
+Example str_zfill_zero : str_zfill [10; 11; 12] 0 = [10; 11; 12]. Proof. vm_compute. reflexivity. Qed.
+Example str_zfill_negative : str_zfill [10; 11; 12] (-4) = [10; 11; 12]. Proof. vm_compute. reflexivity. Qed.
+Example str_zfill_empty : str_zfill [] 2 = [0; 0]. Proof. vm_compute. reflexivity. Qed.
+Example str_zfill_empty0 : str_zfill [] 0 = []. Proof. vm_compute. reflexivity. Qed.
+Example str_zfill_minus : str_zfill (py_format_x (-5)) 4 = [17; 0; 0; 5]. Proof. vm_compute. reflexivity. Qed.
+Example str_zfill_minus_equal : str_zfill (py_format_x (-5)) 2 = [17; 5]. Proof. vm_compute. reflexivity. Qed.
+Example str_zfill_minus_smaller : str_zfill (py_format_x (-5)) 1 = [17; 5]. Proof. vm_compute. reflexivity. Qed.
+Example str_zfill_minus_only : str_zfill [17] 3 = [17; 0; 0]. Proof. vm_compute. reflexivity. Qed.
+Example str_zfill_plus : str_zfill [18; 5] 4 = [18; 0; 0; 5]. Proof. vm_compute. reflexivity. Qed.
+Example str_zfill_other : str_zfill (py_hex_tail (-5)) 4 = [0; 0; 16; 5]. Proof. vm_compute. reflexivity. Qed.
+Example str_zfill_inner_sign : str_zfill [5; 17; 5] 5 = [0; 0; 5; 17; 5]. Proof. vm_compute. reflexivity. Qed.
